@@ -84,6 +84,7 @@ struct Exec{
     nallocs[c.opi]=n;
     if(fired){ c.fault_fired_in_run=true; c.ctr->add("fault_bad_alloc_fired"); c.ctr->add("fault_bad_alloc_in_"+c.opkind); nontrivial=true; }
     executed++;
+    c.ctr->add("cover_op_"+c.opkind);
     return fired;
   }
   void skip(const char* why){ skipped++; c.tr->ev("op#%d skipped (%s)",c.opi,why); }
